@@ -9,6 +9,10 @@ CHECKS = {
    technique="TLA+ spec ExtProviders.tla model-checked by TLC (expansion transcribed from GetResults vs. declarative IPNI rules); every TLC state exported as a case and executed on a real pcache.ProviderCache (exhaustive case-table conformance)",
    text="TLC enumerates every provider record within the bounds (lists of 0..2 extended providers at chain and context level, all metadata classes nil/empty/equal/different, list-length mismatches, override on/off, main provider anywhere) and checks that the transcription of GetResults equals the declarative rules; each enumerated state is then run through the real ProviderCache in four delivery variants plus the JSON source, so the code is compared with the model on the complete bounded input space rather than on samples.",
    note="Assumes lists longer than the bound behave like bounded ones (index-uniform loops); metadata compared modulo nil/empty; TLC, the Go toolchain and the harness concretisation are trusted."),
+ "C06": dict(level="model_checking", design="6/C06", engine="tlc+harness",
+   technique="TLA+ spec ProviderCache.tla (writer lock, per-source refresh steps, cancel, miss path, merge rule, TTL clock) model-checked by TLC against declarative convergence/expiry rules; every terminal-state behaviour replayed step-by-step on a real pcache.ProviderCache with gated sources (behaviour replay conformance)",
+   text="TLC explores every history within the bounds (2-3 sources, 2-3 providers, record versions, per-source failures, environment changes between the source fetches of one refresh, cancellation at each source index, a second call parked on the writer lock, miss-fetches, negative entries, TTL ticks) and checks the convergence, expiry, negative-entry and merge invariants in every state; the same run exports one behaviour per terminal state and each is executed on the real cache, comparing List/Get/Refresh results and source-call counts after every step. The model of the pinned Refresh is refuted by TLC in the same run (non-vacuity).",
+   note="Bounded histories (calls/env changes/ticks per cfg in the evidence); TTL steps use real time with guard bands (disturbed runs are inconclusive, never judged); at most one call parked on the writer lock; TLC + harness trusted."),
 }
 PENDING = {
 }
